@@ -35,13 +35,18 @@ class SimTransport(asyncio.Transport):
         self._conn_lost = 0
         self._pending = []
         self._flush_scheduled = False
+        self._paused = False
 
     def get_extra_info(self, name, default=None):
+        v6 = ":" in str(self._conn.host)
         if name == "peername":
             # a peer that reset the connection before the transport was set up: getpeername() failed -> None
-            return None if self._conn.no_peername else (self._conn.host, self._conn.port)
+            if self._conn.no_peername:
+                return None
+            # AF_INET6 socket names are 4-tuples (host, port, flowinfo, scope_id)
+            return (self._conn.host, self._conn.port, 0, 0) if v6 else (self._conn.host, self._conn.port)
         if name == "sockname":
-            return ("192.0.2.1", 40000 + self._conn.cid)
+            return ("fd00::1", 40000 + self._conn.cid, 0, 0) if v6 else ("192.0.2.1", 40000 + self._conn.cid)
         return default
 
     def is_closing(self):
@@ -100,10 +105,21 @@ class SimTransport(asyncio.Transport):
         return False
 
     def pause_reading(self):
-        pass
+        # as the selector transport: the socket is no longer polled; bytes stay in the kernel buffer
+        if self._closing or self._paused:
+            return
+        self._paused = True
+        self._conn.net.stats["pause_reading"] += 1
 
     def resume_reading(self):
-        pass
+        if self._closing or not self._paused:
+            return
+        self._paused = False
+        self._conn.net.stats["resume_reading"] += 1
+        self._conn.net.loop.call_soon(self._conn._deliver_held)
+
+    def is_reading(self):
+        return not self._paused and not self._closing
 
     def set_write_buffer_limits(self, high=None, low=None):
         pass
@@ -135,6 +151,7 @@ class SimConn:
         self.hostile_until = 0.0        # latest scheduled hostile event (close / non-honest bytes)
         self.no_peername = False
         self._lost_called = False
+        self._held_upto = None
 
     # --- client side events ------------------------------------------------------------------
     def _client_wrote(self, data):
@@ -189,8 +206,18 @@ class SimConn:
             t = t + max(gap, TICK)
         return self._last_sched
 
+    def _deliver_held(self):
+        if self._held_upto is not None:
+            off, self._held_upto = self._held_upto, None
+            self._deliver_upto(off)
+
     def _deliver_upto(self, offset):
         if offset <= self.tx_delivered:
+            return
+        if self.transport._paused and not (self.transport._closing or self.peer_closed):
+            # reading is paused: everything that arrives meanwhile is read in one go after resume_reading()
+            self._held_upto = max(self._held_upto or 0, offset)
+            self.net.stats["held_while_paused"] += 1
             return
         if self.transport._closing or self.peer_closed:
             self.net.stats["dropped_after_close"] += 1
